@@ -140,7 +140,8 @@ EvSelect(e) ==
            \cup (IF Len(rc.objectives) # Len(e.prios) \/ \E k \in DOMAIN rc.objectives : Len(rc.objectives[k]) # Len(rc.cols) THEN {} ELSE
                  QFail("ranks", e.enum => \A k \in DOMAIN e.prios :
                             RanksOn(LevelMatrix(rc.cols, rc.dpv, PairsFn(e.prios[k])), rc.objectives[k], PolyPts(rc)))
-                 \cup QFail("opt_same", (e.enum /\ e.spec_ok) => \A k \in DOMAIN e.prios :
+                 \cup QFail("cols_cover_leaves", lids \subseteq ColIds(rc.cols))
+                 \cup QFail("opt_same", (lids \subseteq ColIds(rc.cols) /\ e.enum /\ e.spec_ok) => \A k \in DOMAIN e.prios :
                             LeafParts(rc, ArgMax(rc.objectives[k], PolyPts(rc)), lids)
                             = LeafParts(spec, ArgMax(Shadow(LevelMatrix(spec.cols, spec.dpv, PairsFn(e.prios[k]))), PolyPts(spec)), lids)))
            \cup QFail("ids_aligned", AnswersOK(e, LAMBDA j : (~e.only_leafs) \/ rc.cols[j].id \in lids))
@@ -161,7 +162,8 @@ EvSolve(e) ==
            \cup QFail("ids_aligned", AnswersOK(e, LAMBDA j : (~rc.cols[j].gen) \/ e.include_virtual))
            \cup QFail("optimal", (e.solver = "exact" /\ e.enum) => \A k \in DOMAIN e.returned : LET P == PolyPts(rc) IN
                             IF e.returned[k].none THEN P = {} ELSE e.returned[k].x \in ArgMax(rc.objectives[k], P))
-           \cup QFail("model_true", (e.solver = "exact" /\ e.enum /\ ~IsAtom(m) /\ WellDefined(m) /\ NoPrefixed(m) /\ NoByRef(m) /\ Safe(m)) =>
+           \cup QFail("cols_cover_leaves", lids \subseteq ColIds(rc.cols))
+           \cup QFail("model_true", (lids \subseteq ColIds(rc.cols) /\ e.solver = "exact" /\ e.enum /\ ~IsAtom(m) /\ WellDefined(m) /\ NoPrefixed(m) /\ NoByRef(m) /\ Safe(m)) =>
                             \A k \in DOMAIN e.returned : e.returned[k].none \/
                                  Pt(m, [ i \in lids |-> e.returned[k].x[CHOOSE j \in DOMAIN rc.cols : rc.cols[j].id = i] ]) = 1))
 
